@@ -68,8 +68,8 @@ def find_aliases(raw):
         for e, fe in extra.items():
             if fm['args'] != fe['args'] or fm['ret'] != fe['ret'] or fm['kind'] != fe['kind']:
                 continue
-            # same enclosing path (module / type): a rename changes the last segment only
-            if m.rpartition('::')[0] != e.rpartition('::')[0]:
+            # same enclosing path (module / type): a rename changes the last segment only; a move keeps the last segment
+            if m.rpartition('::')[0] != e.rpartition('::')[0] and m.rpartition('::')[2] != e.rpartition('::')[2]:
                 continue
             # callee names may themselves have been renamed: compare with the renamed item's own last segment neutralised
             s = _sim(fm['callees'], fe['callees'])
